@@ -28,7 +28,8 @@ impl Transaction {
 #[verifier::external_body]
 pub struct TxViewP { b: Vec<u8> }                 // core::TransactionView
 #[verifier::external_body]
-pub struct JsonTxView { b: Vec<u8> }              // ckb_jsonrpc_types::TransactionView
+pub struct JsonTxInner { b: Vec<u8> }
+pub struct JsonTxView { pub hash: H256, pub inner: JsonTxInner }    // ckb_jsonrpc_types::TransactionView { inner, hash }
 impl TxViewP {
     pub uninterp spec fn s_json(&self) -> JsonTxView;
     #[verifier::external_body]
